@@ -195,6 +195,79 @@ func c04ValuePaths(v interface{}, out *[]string) {
 	}
 }
 
+// c04TypedPath: the values an argument path denotes, following the declared
+// type (typed maps and arrays elementwise, the struct FS by member); a typed
+// map may have a key equal to the name of a member of its values.
+func c04TypedPath(v interface{}, p, ty string) []interface{} {
+	if p == "" {
+		return []interface{}{v}
+	}
+	switch {
+	case strings.HasSuffix(ty, "[]"):
+		var out []interface{}
+		if x, ok := v.([]interface{}); ok {
+			for _, e := range x {
+				out = append(out, c04TypedPath(e, p, ty[:len(ty)-2])...)
+			}
+		}
+		return out
+	case strings.HasPrefix(ty, "map<") && strings.HasSuffix(ty, ">"):
+		var out []interface{}
+		if x, ok := v.(map[string]interface{}); ok {
+			for _, e := range x {
+				out = append(out, c04TypedPath(e, p, ty[4:len(ty)-1])...)
+			}
+		}
+		return out
+	case ty == "FS":
+		key, rest := p, ""
+		if i := strings.IndexByte(p, '.'); i >= 0 {
+			key, rest = p[:i], p[i+1:]
+		}
+		if x, ok := v.(map[string]interface{}); ok {
+			mt := map[string]string{"x": "txt", "n": "int", "y": "txt"}[key]
+			if e, ok := x[key]; ok && mt != "" {
+				return c04TypedPath(e, rest, mt)
+			}
+		}
+		return nil
+	}
+	return c04JSONPath(v, p)
+}
+
+// c04ArgPathsTyped: outs is the whole outs object, arg "<out>.<path>", outTypes
+// the declared types of the output parameters (nil: untyped walk).
+func c04ArgPathsTyped(outs interface{}, arg string, outTypes map[string]string) []string {
+	name, rest := arg, ""
+	if i := strings.IndexByte(arg, '.'); i >= 0 {
+		name, rest = arg[:i], arg[i+1:]
+	}
+	ty := outTypes[name]
+	m, ok := outs.(map[string]interface{})
+	if ty == "" || rest == "" || !ok {
+		return c04ArgPaths(outs, arg)
+	}
+	var ps []string
+	for _, v := range c04TypedPath(m[name], rest, ty) {
+		c04ValuePaths(v, &ps)
+	}
+	for i, p := range ps {
+		ps[i] = filepath.Clean(p)
+	}
+	return ps
+}
+
+func c04StageOutTypes(st *c04StageDef) map[string]string {
+	if st == nil {
+		return nil
+	}
+	m := map[string]string{}
+	for _, o := range st.Outs {
+		m[o.Name] = o.Ty
+	}
+	return m
+}
+
 func c04ArgPaths(outs interface{}, arg string) []string {
 	var ps []string
 	for _, v := range c04JSONPath(outs, arg) {
@@ -495,7 +568,7 @@ func (s *c04Sim) setup() error {
 			seen[p[0]] = true
 			for name, id := range s.argID {
 				if id == p[0] {
-					ps := c04ArgPaths(ov, name)
+					ps := c04ArgPathsTyped(ov, name, c04StageOutTypes(s.stageOf(f.Node)))
 					if len(ps) > 0 {
 						argPaths[id] = ps
 						f.Valued = append(f.Valued, id)
@@ -1220,6 +1293,16 @@ func c04E2ECase(d, psid string, obs *c04RunObs) (line, iobs, verdict string) {
 	if obs.BooksErr != "" {
 		return "X", "no-books", "skip books: " + obs.BooksErr
 	}
+	// declared output types per stage, for the typed reading of argument paths
+	outTypesOf := map[string]map[string]string{}
+	if pb, err := os.ReadFile(filepath.Join(d, "prog.json")); err == nil {
+		var prog c04Prog
+		if json.Unmarshal(pb, &prog) == nil {
+			for _, st := range prog.Stages {
+				outTypesOf[st.Name] = c04StageOutTypes(st)
+			}
+		}
+	}
 	argID, nodeID := map[string]int{}, map[string]int{}
 	aid := func(a string) int {
 		if id, ok := argID[a]; ok {
@@ -1328,7 +1411,8 @@ func c04E2ECase(d, psid string, obs *c04RunObs) (line, iobs, verdict string) {
 			seen[p[0]] = true
 			for name, id := range argID {
 				if id == p[0] {
-					if ps := c04ArgPaths(f.outs, name); len(ps) > 0 {
+					stName := f.nodeFq[strings.LastIndexByte(f.nodeFq, '.')+1:]
+					if ps := c04ArgPathsTyped(f.outs, name, outTypesOf[stName]); len(ps) > 0 {
 						argPaths[id] = ps
 						f.m.Valued = append(f.m.Valued, id)
 					}
